@@ -332,3 +332,25 @@ impl DataStorage {
         self.adapter.clone()
     }
 }
+
+/// Verification hooks (compiled only with `--cfg melda_verif`)
+#[cfg(melda_verif)]
+impl DataStorage {
+    /// The committed object index: (digest, pack, offset, length), sorted
+    pub fn verif_index(&self) -> Vec<(String, String, usize, usize)> {
+        let mut v: Vec<(String, String, usize, usize)> = self
+            .committed_objects
+            .iter()
+            .map(|(d, (p, o, l))| (d.clone(), p.clone(), *o, *l))
+            .collect();
+        v.sort();
+        v
+    }
+
+    /// Digests of the staged objects, sorted
+    pub fn verif_stage_keys(&self) -> Vec<String> {
+        let mut v: Vec<String> = self.stage.keys().cloned().collect();
+        v.sort();
+        v
+    }
+}
